@@ -7,6 +7,7 @@ head=$(git -C /repo rev-parse HEAD)
 [ -d /tmp/pristine ] || git -C /repo worktree add --detach /tmp/pristine HEAD -q
 (cd /tmp/pristine && git checkout -q --detach $head && git checkout -q -- . )
 [ -d /tmp/pristine_old ] || git -C /repo worktree add --detach /tmp/pristine_old b300cc9 -q
+[ -d /tmp/pristine_706 ] || git -C /repo worktree add --detach /tmp/pristine_706 706e1c7 -q
 mkdir -p /tmp/vdev/evidence /tmp/corpus; rm -rf /tmp/vdev/fixtures; cp -r /verif/fixtures /tmp/vdev/fixtures
 for x in known_findings.json selftest seeded; do [ -e /tmp/vdev/$x ] || ln -s /verif/$x /tmp/vdev/$x; done
 rm -f /tmp/corpus/*.txt
@@ -16,8 +17,16 @@ run1() {
   out=/tmp/corpus/$kind-$name.txt
   ./bin/mcverif-corpus -repo /tmp/pristine -verif /tmp/vdev -harness harness-c$slot -prop all -patch $dir/patch.diff > $out 2>&1
   if grep -q "^patch: " $out; then
-    ./bin/mcverif-corpus -repo /tmp/pristine_old -verif /tmp/vdev -harness harness-o$slot -prop all -patch $dir/patch.diff > $out.old 2>&1
-    grep -v "A3.restart-resets-outflow\|A7.decision-signer-form\|A11.parser|x/stream/types.FirstAddressFromStreamStoreKey|width" $out.old > $out; echo "OLDBASE" >> $out; rm -f $out.old
+    # written against an earlier /repo HEAD: 706e1c7 (before fix F10), else b300cc9 (before F7, F8, F9 as well); the rules that
+    # report those defects, fixed since, are left out of the comparison
+    ./bin/mcverif-corpus -repo /tmp/pristine_706 -verif /tmp/vdev -harness harness-p$slot -prop all -patch $dir/patch.diff > $out.old 2>&1
+    if grep -q "^patch: " $out.old; then
+      ./bin/mcverif-corpus -repo /tmp/pristine_old -verif /tmp/vdev -harness harness-o$slot -prop all -patch $dir/patch.diff > $out.old 2>&1
+      python3 /verif/tools/oldbase_filter.py $out.old "A3.restart-resets-outflow" "A7.decision-signer-form" "A11.parser|x/stream/types.FirstAddressFromStreamStoreKey|width" "A2.unlock-guard|no-granter" > $out
+    else
+      python3 /verif/tools/oldbase_filter.py $out.old "A2.unlock-guard|no-granter" > $out
+    fi
+    echo "OLDBASE" >> $out; rm -f $out.old
   fi
 }
 export -f run1
